@@ -103,10 +103,24 @@ class Mut:
             return self._exe[flavor]
 
     def cpp_copy(self, proto: str, infmt: str, outfmt: str, data: bytes, flavor: str = "plain",
-                 bufs=None, version: str | None = None, skip_close=False, cpu_s: int = 20, empty_batches=False, in_file: str | None = None):
+                 bufs=None, version: str | None = None, skip_close=False, cpu_s: int = 20, empty_batches=False, in_file: str | None = None,
+                 out_file: str | None = None, first: tuple | None = None):
+        """out_file: the writer is constructed through its file-name constructor; the file's content is returned as the output.
+        first: (protocol, format, file): a complete copy of that stream is made in the same process before the main one."""
         args = [proto, infmt, outfmt]
         if in_file:
             args += ["--in-file", in_file]
+        if first:
+            args += ["--first"] + list(first)
+        if out_file:
+            args += ["--out-file", out_file]
+            p = cxx.run_driver(self.cpp_exe(flavor), args + (["--bufs", ",".join(map(str, bufs))] if bufs else []) + (["--version", version] if version else []), data, flavor, cpu_s=cpu_s)
+            try:
+                with open(out_file, "rb") as f:
+                    p.out = f.read()
+            except OSError:
+                pass
+            return p
         if empty_batches:
             args.append("--empty-batches")
         if bufs:
